@@ -5,7 +5,7 @@ SPEC = {
     "extract": ["c26"],
     "harness": "c26",
     "driver": "Driver/C26.lean",
-    "needs_plz": False,
+    "needs_plz": True,
     "level": "proof",
     "level_text": (
         "Partial. Proved for all lists of cases and runs (Props/C26.lean): every case is in exactly one of passed / errored / failed / skipped / "
@@ -40,9 +40,15 @@ SPEC = {
 }
 
 MUTATIONS = """
-Dry-runs on scratch copies (VERIF_REPO) with findings_inbox/C26.jsonl loaded: see /verif/checks/C26.py history; results recorded after the batch finished:
- m1 Passes ignores the skip condition            m2 AllSucceeded no longer accepts a skip     m5 go `Skip` sets Failure
- m6 Add matches on Name only                     m7 xml tag of <skipped> renamed               m8 format sniffing loses the "<test" prefix
- m9 rerunError appended as Failure               m3 flake loop `<` instead of `<=` (facts only: reported without a failing input)
- h1 harmless: conjuncts of Passes reordered, loop variable renamed
+Dry-runs on scratch copies (VERIF_REPO) with findings_inbox/C26.jsonl loaded; every run rebuilds plz from the copy:
+ m1 Passes: `result.Skip() == nil` dropped                 -> exit 1: facts (17/18), 20 disagreements, failing inputs summary-mismatch and, through
+                                                               `plz test`, e2e-summary-mismatch ("2 tests run; 2 passed, 1 skipped")
+ m2 AllSucceeded no longer accepts a skipped case           -> exit 1: facts, disagreements, summary-mismatch + e2e-summary-mismatch (a skipped test fails the target)
+ m3 doFlakeRun: `flakes < Flakiness` (off by one)           -> exit 1: facts (flakeLoopCond) and a concrete failing input from the real binary: e2e-summary-mismatch
+ m5 go_results: `case gtr.Skip` sets Failure                -> exit 1: facts (goSets; the model follows them, 0 disagreements), failing input parsed-cases-mismatch
+ m6 findMatchingTestCase matches on Name only               -> exit 1: facts, 20 disagreements, summary-mismatch + flake-merge-mismatch with inputs
+ m7 xml tag of <skipped> renamed to "skip"                  -> exit 1: facts (caseTags), parsed-cases-mismatch + e2e-summary-mismatch
+ m8 looksLikeJUnitXMLTestResults loses the "<test" prefix   -> exit 1: facts (xmlPrefixes), 21 disagreements, parsed-cases-mismatch + e2e-summary-mismatch
+ m9 appendRerunError sets Failure instead of Error          -> exit 1: facts (appendSets), disagreements, parsed-cases-mismatch
+ h1 harmless: conjuncts of the Passes condition reordered, loop variable renamed -> exit 0 (conditions are compared with sorted conjuncts and a canonical variable name)
 """
